@@ -298,6 +298,7 @@ impl TokenParser {
         let mut patterns = Vec::new();
         patterns.push(self.parse_pattern()?);
         while self.match_token(&TokenType::Comma) {
+            self.enter_nested(1)?;
             patterns.push(self.parse_pattern()?);
         }
         Ok(MatchClause {
@@ -310,6 +311,7 @@ impl TokenParser {
         let mut patterns = Vec::new();
         patterns.push(self.parse_pattern()?);
         while self.match_token(&TokenType::Comma) {
+            self.enter_nested(1)?;
             patterns.push(self.parse_pattern()?);
         }
         Ok(MatchClause {
@@ -322,6 +324,7 @@ impl TokenParser {
         let mut patterns = Vec::new();
         patterns.push(self.parse_pattern()?);
         while self.match_token(&TokenType::Comma) {
+            self.enter_nested(1)?;
             patterns.push(self.parse_pattern()?);
         }
         Ok(CreateClause { patterns })
@@ -574,6 +577,7 @@ impl TokenParser {
     fn parse_label_chain(&mut self) -> Result<Vec<String>, Error> {
         let mut labels = Vec::new();
         while self.match_token(&TokenType::Colon) {
+            self.enter_nested(1)?;
             labels.push(self.parse_identifier("label name")?);
         }
         if labels.is_empty() {
@@ -618,6 +622,7 @@ impl TokenParser {
         {
             self.advance(); // shortestPath / allShortestPaths
             self.consume(&TokenType::LeftParen, "Expected '(' after shortestPath")?;
+            self.enter_nested(Self::NEST_COST)?;
             let mut inner = self.parse_pattern()?;
             self.consume(
                 &TokenType::RightParen,
@@ -663,6 +668,7 @@ impl TokenParser {
 
         let mut labels = Vec::new();
         while self.match_token(&TokenType::Colon) {
+            self.enter_nested(1)?;
             match &self.peek().token_type {
                 TokenType::Identifier(label) => {
                     labels.push(label.clone());
@@ -828,6 +834,7 @@ impl TokenParser {
         let mut properties = Vec::new();
 
         while !self.check(&TokenType::RightBrace) {
+            self.enter_nested(1)?;
             let key = self.parse_property_key()?;
             self.consume(&TokenType::Colon, "Expected ':' in property map")?;
             let value = self.parse_expression()?;
@@ -875,7 +882,9 @@ impl TokenParser {
         self.consume(&TokenType::Pipe, "Expected '|' after FOREACH list")?;
 
         let mut updates = Vec::new();
+        self.enter_nested(Self::NEST_COST)?;
         while !self.check(&TokenType::RightParen) && !self.is_at_end() {
+            self.enter_nested(1)?;
             if let Some(clause) = self.parse_clause()? {
                 match clause {
                     Clause::Create(_)
@@ -1455,6 +1464,7 @@ impl TokenParser {
     fn parse_expression_label_chain(&mut self) -> Result<Vec<String>, Error> {
         let mut labels = vec![self.parse_identifier("label identifier")?];
         while self.match_token(&TokenType::Colon) {
+            self.enter_nested(1)?;
             labels.push(self.parse_identifier("label identifier")?);
         }
         Ok(labels)
